@@ -193,8 +193,9 @@ def gen_cases(seed, tier):
         F, T, df, dt, fch1 = _geometry(rng, op, route)
         c = dict(op=op, asc=asc, route=route, fchans=F, tchans=T, df=df, dt=dt, fch1=fch1,
                  data_kind=common.stratum(k, 176, DATA_KINDS), sub=int(rng.integers(2 ** 31)),
-                 t0=float(np.round(rng.uniform(1.0e9, 1.6e9), 3)), mjd=float(np.round(rng.uniform(55000, 60000), 6)),
-                 name='SRC%05d' % int(rng.integers(100000)))
+                 t0=0.0 if common.stratum(k, 183, 10) == 0 else float(np.round(rng.uniform(1.0e9, 1.6e9), 3)),
+                 mjd=float(np.round(rng.uniform(55000, 60000), 6)),
+                 name='' if common.stratum(k, 184, 8) == 0 else 'SRC%05d' % int(rng.integers(100000)))       # blank names and a start at t = 0 are values too
         if route == 'derived':
             c['pad'] = [int(rng.integers(0, 33)), int(rng.integers(0, 33))]
             c['base_file'] = bool(common.stratum(k, 177, 2))
